@@ -1023,6 +1023,11 @@ def late_history_cases(ctx, kt):
             pairs = {b"id": rlp_str(b"v4"), e0.entry: rlp_str(e0.pub), b"secp256k1": rlp_str(ov)}
             b = record_bytes(o, e0, 4, sorted(pairs.items()))[0]
             cases.append(["key a " + e0.spec, "decode " + b.hex(), "load " + b.hex(), "op set_udp4 a 0 9", "recode 1"])
+    # long keys that are not UTF-8 (or whose multi-byte characters sit on every small offset): the formatters render keys lossily
+    for lk in (b"\xff" * 20, b"application-key" + b"\x80" * 12, "\u00e9".encode() * 15, b"k" * 15 + "\u20ac".encode() * 4, b"\xc3" * 25, b"a" * 23 + b"\xe2\x82"):
+        cases.append(head + ["build a 0 1 val/%s/b:%s" % (hx(lk), hx(b"v")), "op insert a 0 %s b:%s" % (hx(lk[:-1] + b"z"), hx(b"\x00" * 40))])
+        pl = sorted({b"id": rlp_str(b"v4"), a.entry: rlp_str(a.pub), lk: rlp_str(b"\xde\xad" * 20)}.items())
+        cases.append(["decode " + hx(record_bytes(o, a, 3, pl)[0])])
     if kt == "comb" and eds and secp:
         for signer in (secp[0], eds[0]):
             pairs = {b"id": rlp_str(b"v4"), eds[0].entry: rlp_str(eds[0].pub), secp[0].entry: rlp_str(secp[0].pub), b"udp": rlp_uint(1)}
@@ -1313,6 +1318,12 @@ def check_C12(ctx):
             case.append("json " + hx(b'["' + eds[0][1] + b'"]'))
             case.append("json " + hx(b'{"enr":"' + eds[0][1] + b'"}'))
             case.append("json " + hx(b"12345"))
+            # line terminators and other white space after / before the text, as text and as an escaped JSON string
+            for ws, esc in ((b"\n", b"\\n"), (b"\r\n", b"\\r\\n"), (b"\r", b"\\r"), (b"\n\n", b"\\n\\n"), (b"\t", b"\\t"), (b"\x0c", b"\\f"), (b"\x00", b"\\u0000")):
+                case.append("parse " + hx(eds[0][1] + ws))
+                case.append("parse " + hx(ws + eds[0][1]))
+                case.append("parse " + hx(eds[0][1][4:] + ws))
+                case.append("json " + hx(b'"' + eds[0][1] + esc + b'"'))
             cases.append(case); labs.append("text_edits")
         compare_cases(ctx, kt, cases, labs, lambda c, h: ["enc", "text", "json", "disp", "seq", "pairs", "sig"], "c12", mon)
         cross_decode(ctx, kt, [], [unhx(l.split()[1]) for c in cases for l in c if l.startswith("parse ")])
@@ -1424,6 +1435,22 @@ def check_C15(ctx):
             k0 = ku[0]
             recs2 = [record_bytes(ctx.oracle, k0, 5, sorted({b"id": rlp_str(b"v4"), k0.entry: rlp_str(pkv), b"udp": rlp_uint(7)}.items()))[0] for pkv in (k0.pub, k0.pub_unc)]
             cases.append(["key a " + k0.spec, "load " + recs2[0].hex(), "save 0", "load " + recs2[1].hex(), "save 1", "pair 0 1", "pair 1 0", "pair 0 0", "pair 1 1"])
+        # a record and the clone taken before a FAILING call (a re-keying set_seq / insert that does not fit; a signing fault):
+        # equal records must carry identical pairs
+        r15 = _late_rng(ctx, kt, 15)
+        k15 = gens.secrets(r15, ctx.oracle, kt, 6)
+        oth = [k for k in k15[1:] if k.scheme != k15[0].scheme] or [k for k in k15[1:] if k.scheme == k15[0].scheme]
+        if oth:
+            a15, b15 = k15[0], oth[0]
+            siglen = 16 if a15.scheme == "toy" else 64
+            for target in (270, 290, 298):
+                p15 = gens.pad_to(r15, 5, {b"id": rlp_str(b"v4"), a15.entry: rlp_str(a15.pub), b"udp": rlp_uint(9)}, target, siglen)
+                if not p15:
+                    continue
+                rb = record_bytes(ctx.oracle, a15, 5, sorted(p15.items()))[0]
+                for op in ("op set_seq b 0 %d" % (2**64 - 1), "op set_seq b 0 6", "op insert b 0 %s b:%s" % (hx(b"q"), hx(b"w" * 20)), "op set_udp4 b 1 7", "op set_udp4 b 3 7",
+                           "op remove_key b 0 %s" % hx(b"nokey")):
+                    cases.append(["key a " + a15.spec, "key b " + b15.spec, "load " + rb.hex(), "save 0", op, "save 1", "pair 0 1", "pair 1 0", "recode 2", "pair 1 2"])
         # content twins by concatenation: {k1: v1, k3: v2} against {k1 ++ v1 ++ k3: v2} — the same bytes once the framing of
         # keys is dropped, different pairs (a comparison over an unframed stream of entries takes them for equal)
         a = gens.secrets(ctx.rng, ctx.oracle, kt, 1)[0]
